@@ -318,12 +318,14 @@ Definition digest_ok (tb : tgt_table) (t : st) (d : list (nat * nat * nat)) (lb 
   forallb (fun e => match e with
     | (ti, nl, cl) =>
         let tg := tgt tb ti in
-        existsb (fun x => kind_eqb (skind x) (tkind tg) && String.eqb (skey x) (subject_of tg) &&
+        let key := subject_of tg in      (* computed once per entry *)
+        existsb (fun x => kind_eqb (skind x) (tkind tg) && String.eqb (skey x) key &&
                           Nat.eqb (List.length (ls x)) nl && Nat.eqb (List.length (chan x)) cl) opens
     end) d &&
   let lives := filter live (subs t) in
   Nat.eqb (List.length lives) (fold_right (fun e acc => snd e + acc) 0 lb) &&
-  forallb (fun e => Nat.eqb (List.length (filter (fun x => String.eqb (skey x) (subject_of (tgt tb (fst e)))) lives)) (snd e)) lb.
+  forallb (fun e => let key := subject_of (tgt tb (fst e)) in
+                    Nat.eqb (List.length (filter (fun x => String.eqb (skey x) key) lives)) (snd e)) lb.
 
 Definition find_pick (t : st) (b : list (nat * N)) (k l m : N) : option nat :=
   first_some (fun j =>
@@ -384,7 +386,43 @@ Fixpoint replay (tb : tgt_table) (i : N) (r : rstate) (evs : list ev) : option N
 (* ======================================================================== *)
 (* mode 0: sequential script, compared with the model
    mode 1: sequential script, compared with the model and judged by P_C20
-   mode 2: concurrent history, judged by P_C20 *)
+   mode 2: concurrent history, judged by P_C20
+   mode 3: mode 1 on a table of targets built for collisions of the subject
+           function (the collision pool: ids together with the texts an
+           encoding step could turn them into, as ids of their own).  P_C20's
+           clause (c) attributes a callback to the table index its message
+           was published for; the verdict "foreign" is only as good as the
+           table: the judge checks that every target lies inside the side
+           condition of C20_subject_inj and that no two entries denote the
+           same subject of the property (pool_ok, code 5 otherwise).
+           props/C20.v: pool_wf is wf_target, and in a table that passes the
+           model's subjects are pairwise different (C20_pool_subjects_distinct). *)
+Definition pool_wf (t : target) : bool :=
+  match tkind t with
+  | KSession => true
+  | _ => match tbackend t with
+         | None => negb (contains_char "|"%char (tid t))
+         | Some b => negb (contains_char "|"%char b)
+         end
+  end.
+Definition opt_string_eqb (a b : option string) : bool :=
+  match a, b with
+  | None, None => true
+  | Some x, Some y => String.eqb x y
+  | _, _ => false
+  end.
+(* the same subject of the property: kind, id and (except for sessions) backend *)
+Definition same_target_b (t1 t2 : target) : bool :=
+  kind_eqb (tkind t1) (tkind t2) && String.eqb (tid t1) (tid t2) &&
+  (kind_eqb (tkind t1) KSession || opt_string_eqb (tbackend t1) (tbackend t2)).
+Fixpoint pool_distinct (ts : list target) : bool :=
+  match ts with
+  | [] => true
+  | t :: r => forallb (fun u => negb (same_target_b t u)) r && pool_distinct r
+  end.
+Definition pool_ok (tb : tgt_table) : bool :=
+  forallb pool_wf (map fst tb) && pool_distinct (map fst tb).
+
 Definition case := (N * N * tgt_table * list ev)%type.
 Definition mkcase (id mode : N) (tb : tgt_table) (evs : list ev) : case := (id, mode, tb, evs).
 
@@ -399,11 +437,15 @@ Definition judge (c : case) : list (N * N * N) :=
   let kinds := fun ti => kind_code (tkind (tgt tb ti)) in
   (match key_mismatch 0 tb with Some i => [(id, 3%N, i)] | None => [] end) ++
   (match mode with
-   | 0%N | 1%N => match replay tb 0 (mkR init [] []) evs with Some i => [(id, 1%N, i)] | None => [] end
+   | 0%N | 1%N | 3%N => match replay tb 0 (mkR init [] []) evs with Some i => [(id, 1%N, i)] | None => [] end
    | _ => []
    end) ++
   (match mode with
-   | 1%N => let h := index (seq_history evs) in
+   | 3%N => if pool_ok tb then [] else [(id, 5%N, 0%N)]
+   | _ => []
+   end) ++
+  (match mode with
+   | 1%N | 3%N => let h := index (seq_history evs) in
             if negb (hist_wf h) then [(id, 4%N, 0%N)]
             else if P_C20 kinds h then [] else [(id, 2%N, P_C20_clause kinds h)]
    | 2%N => let h := index evs in
